@@ -1,4 +1,5 @@
 import Babble.Proofs.Vote
+import Babble.Proofs.HGLoaded
 import Babble.Model.Hashgraph
 /-! # C06 — liveness under fair gossip (PARTIAL)
     What a theorem can carry: the deterministic ingredients.
@@ -95,5 +96,21 @@ theorem process_makes_progress (s : HG.St) (r : Int) (rest : List (Int × Bool))
   split
   · exact ⟨_, rfl, rfl⟩
   · exact ⟨_, rfl, rfl⟩
+
+/-- **the counter behind `busy()` follows the events**: inserting an event adds one exactly when it
+    is loaded; assigning rounds, deciding fame and assigning a round received leave it unchanged; it
+    comes down only when a decided round is processed, by the number of loaded events of that frame.
+    So an event that is loaded keeps its node busy until its round has been processed — also while a
+    later round is decided before an earlier one. (The Go counter is compared with this model after
+    every insertion.) -/
+theorem busy_counter_follows_the_events (s : Babble.HG.St) (e : Babble.HG.Ev) :
+    (s.insert e).pendingLoaded = s.pendingLoaded + (if e.isLoaded then 1 else 0) ∧
+    s.divideRounds.pendingLoaded = s.pendingLoaded ∧
+    s.decideFame.pendingLoaded = s.pendingLoaded ∧
+    s.decideRoundReceived.pendingLoaded = s.pendingLoaded ∧
+    (∀ s', s.processOne = some s' → ∃ r ri, s.getRound r = some ri ∧ s.pending.head?.map (·.1) = some r ∧
+      s'.pendingLoaded = s.pendingLoaded - (((s.getFrame r ri).2.filter Babble.HG.Ev.isLoaded).length : Int)) :=
+  ⟨Babble.HG.insert_pl s e, Babble.HG.divideRounds_pl s, Babble.HG.decideFame_pl s, Babble.HG.decideRoundReceived_pl s,
+   fun s' h => Babble.HG.processOne_pl s s' h⟩
 
 end Babble.Props.C06
